@@ -6,6 +6,7 @@ package main
 // contracts for dependencies) or inlined (small module helpers without one).
 
 import (
+	"os"
 	"fmt"
 	"go/constant"
 	"go/token"
@@ -70,6 +71,9 @@ type Exec struct {
 	bounded   int
 	boundHits int
 	stdOK     map[*ssa.Function]bool
+	totalSteps int
+	budgetHit  bool
+	forceInline map[string]bool // bounded fallback, second attempt: callees executed in place although they have a contract
 	misfit    bool // the contract is keyed to a function literal that is not this one any more
 	curPath string
 	// entry values for old()
@@ -94,6 +98,16 @@ type Hooks interface {
 
 func newExec(ld *Loaded, specs *SpecDB) *Exec {
 	return &Exec{ld: ld, ctx: newCtx(), specs: specs, tags: map[string]int64{}, usedExt: map[string]bool{}, maxSteps: 20000}
+}
+
+func (e *Exec) stepBudget() int {
+	if e.hooks != nil {
+		return 1 << 30
+	}
+	if e.bounded > 0 {
+		return 30000
+	}
+	return 120000
 }
 
 func (e *Exec) errorf(format string, args ...any) {
@@ -271,7 +285,11 @@ func (e *Exec) val(st *State, v ssa.Value) SV {
 	}
 	sv, ok := st.env[v]
 	if !ok {
-		e.errorf("%s: value %s (%T) not bound", e.top.Name(), v.Name(), v)
+		if e.hooks == nil {
+			e.abort(st, fmt.Sprintf("value %s (%T) is used before the executor bound it (unmodelled control flow)", v.Name(), v))
+		} else {
+			e.errorf("%s: value %s (%T) not bound", e.top.Name(), v.Name(), v)
+		}
 		return e.freshSV("unbound", v.Type())
 	}
 	return sv
@@ -331,6 +349,23 @@ func (e *Exec) abort(st *State, why string) {
 
 // execBlock enters block b coming from pred.
 func (e *Exec) execBlock(fr *frame, b *ssa.BasicBlock, pred *ssa.BasicBlock, st *State) {
+	// budget for one function verification: a proof that needs more than this many block visits (deep recursion
+	// through helpers without contracts, each level forking) is not going to be found by path enumeration
+	e.totalSteps++
+	if debugPaths && e.totalSteps%5000 == 0 {
+		fmt.Fprintf(os.Stderr, "steps %d obligations %d pc %d events %d\n", e.totalSteps, len(e.obls), len(st.pc), len(st.events))
+	}
+	if e.totalSteps > e.stepBudget() || len(e.obls) > 60000 {
+		if e.bounded > 0 {
+			e.boundHits++
+			return
+		}
+		if !e.budgetHit {
+			e.budgetHit = true
+			e.abort(st, fmt.Sprintf("path budget of %d block visits exhausted", e.stepBudget()))
+		}
+		return
+	}
 	st.nsteps++
 	if st.nsteps > e.maxSteps {
 		if e.bounded > 0 {
@@ -545,7 +580,8 @@ func (e *Exec) loopHeader(fr *frame, li *loopInfo, b, pred *ssa.BasicBlock, st *
 				if err == nil {
 					e.oblige(st, name+"/decreases", e.propsFor(fr, "safety"), And(Lt(m.L[0], *lc.measure), Ge(*lc.measure, IntLit(0))), "termination measure decreases and is bounded below")
 				} else {
-					e.errorf("%s: decreases: %v", name, err)
+					e.notes = appendUnique(e.notes, fmt.Sprintf("%s: decreases: %v", name, err))
+					e.oblige(st, name+"/decreases", e.propsFor(fr, "safety"), BoolLit(false), fmt.Sprintf("the termination measure of the contract cannot be evaluated on the current code: %v", err))
 				}
 			}
 		}
